@@ -11,13 +11,22 @@
    Hypothesis `key_faithful_on r p` (only relevant when TYPE NAMES or LABELS are renamed; trivially
    true otherwise, see tc_chan_equivariant): EqualType keys its memo by printed types, so the printed
    keys of the renamed types must coincide exactly when the original keys do.
+   Permutations: the verdict is unchanged by permuting the type definitions and by permuting the
+   function definitions of a program (`perm_types_invariant`, `perm_funs_invariant`), and the AST that
+   ParseString builds does not depend on how declarations of different kinds are interleaved
+   (`expand_kinds`; `exec` statements are numbered in their own relative order).
+   Run-time names: Name.Equal / Name.Substitute / Form.Substitute and the receive, call and cut
+   transitions do not depend on the identifiers of initialised names (`subst_ident_irrelevant`,
+   `receive_ident_irrelevant`, `call_ident_irrelevant`).
    NOT proved here: invariance under renamings of bound variables that are capture-avoiding but not
-   injective on the identifiers of the whole program (`run_alpha_invariant`, a Definition), and
-   permutation of declarations. *)
+   injective on the identifiers of the whole program (`run_alpha_invariant`, a Definition), the full
+   simulation `step_sim_statement` (a Definition), permutation of process declarations. *)
 From stdpp Require Import gmap strings.
 Require Import Grits.Base Grits.STypes Grits.Forms Grits.Subst Grits.Expand Grits.TcDeps Grits.TcTop Grits.Runtime.
 Require Import Grits.spec.Rename Grits.proofs.RenameTypes Grits.proofs.RenameSubst Grits.proofs.RenameTc
-               Grits.proofs.RenameExt Grits.proofs.RenameRun Grits.proofs.C14Main Grits.proofs.C14Examples.
+               Grits.proofs.RenameExt Grits.proofs.RenameRun Grits.proofs.RenameSim Grits.proofs.PermTc
+               Grits.proofs.C14Main Grits.proofs.C14Examples.
+Require Import Coq.Sorting.Permutation.
 
 Theorem verdict_invariant : forall r p, admissible r p -> key_faithful_on r p ->
   verdict_class (typecheck (rn_program r p)) = verdict_class (typecheck p).
@@ -72,6 +81,34 @@ Theorem admissible_globalize : forall r p, admissible r p ->
   ginjective (globalize r p) /\ rn_program (globalize r p) p = rn_program r p /\ agree (globalize r p) r (program_atoms p).
 Proof. exact globalize_spec. Qed.
 
+(* permutation of declarations *)
+Theorem perm_types_invariant : forall p D', Permutation (p_types p) D' ->
+  PermTc.accepts (typecheck (with_types D' p)) = PermTc.accepts (typecheck p).
+Proof. exact PermTc.perm_types_invariant. Qed.
+
+Theorem perm_funs_invariant : forall p fs', Permutation (p_funs p) fs' ->
+  PermTc.accepts (typecheck (with_funs fs' p)) = PermTc.accepts (typecheck p).
+Proof. exact PermTc.perm_funs_invariant. Qed.
+
+Theorem expand_kinds : forall l l',
+  filter is_proc l = filter is_proc l' -> filter is_fun l = filter is_fun l' -> filter is_type l = filter is_type l' ->
+  filter is_assume l = filter is_assume l' -> filter is_exec l = filter is_exec l' ->
+  expand l = expand l'.
+Proof. exact PermTc.expand_kinds. Qed.
+
+(* identifiers of initialised names are irrelevant (nn erases them) *)
+Theorem subst_ident_irrelevant : forall old new f, sc old new -> nf (subst (nn old) (nn new) (nf f)) = nf (subst old new f).
+Proof. exact subst_nn1. Qed.
+
+Theorem receive_ident_irrelevant : forall self p m, wfb (pr_body0 p) ->
+  rule_eqb (m_rule m) RGC = false -> (match pr_body0 p with FFwd _ _ true => False | _ => True end) ->
+  neres (on_message self (np p) (nm m)) = neres (on_message self p m).
+Proof. exact on_message_sim. Qed.
+
+Theorem call_ident_irrelevant : forall F fn args, Forall wf_fun F ->
+  option_map nf (call_body F fn (map nn args)) = option_map nf (call_body F fn args).
+Proof. exact call_body_sim. Qed.
+
 (* non-vacuity on a concrete program: the repaired F24 reproducer and a collision-rich renaming *)
 Theorem example_renamed_ast : option_map (rn_program ex_ren) (parsed ex_text) = parsed ex_text_renamed.
 Proof. exact ex_rename_parse. Qed.
@@ -91,6 +128,12 @@ Print Assumptions run_label_equivariant.
 Print Assumptions run_chan_equivariant.
 Print Assumptions subst_equivariant.
 Print Assumptions admissible_globalize.
+Print Assumptions perm_types_invariant.
+Print Assumptions perm_funs_invariant.
+Print Assumptions expand_kinds.
+Print Assumptions subst_ident_irrelevant.
+Print Assumptions receive_ident_irrelevant.
+Print Assumptions call_ident_irrelevant.
 Print Assumptions example_renamed_ast.
 Print Assumptions example_admissible.
 Print Assumptions example_runs.
